@@ -178,6 +178,7 @@ theorem tapTree_atIndex (net : String) (prv : PrvKeys) (i j : Nat) : ∀ (t : Tr
   | .pk k => by simp only [Tree.mapKeys, tapTree, sec_atIndex]
   | .multiA thr ks s => by simp only [Tree.mapKeys, tapTree, mapO_atIndex]
   | .branch l r => by simp only [Tree.mapKeys, tapTree, tapTree_atIndex net prv i j l, tapTree_atIndex net prv i j r]
+  | .ms n => rfl
 
 /-- `at_index(d, i)` describes, at any index, what `d` describes at `i`. -/
 theorem scripts_atIndex (net : String) (prv : PrvKeys) (i j : Nat) : ∀ (d : D),
@@ -190,5 +191,6 @@ theorem scripts_atIndex (net : String) (prv : PrvKeys) (i j : Nat) : ∀ (d : D)
   | .tr k (some t) => by simp only [D.mapKeys, Option.map_some, scripts, sec_atIndex, tapTree_atIndex]
   | .addr a => rfl
   | .raw s => rfl
+  | .ms n => rfl
 
 end Btc.Desc
